@@ -172,6 +172,14 @@ void aws_mem_release(struct aws_allocator *a, void *p) {
     free(p);
 }
 #endif
+/* replay variables (DESIGN 3.5): plain copies of the choices that make up the pre-state of a step unit, read back from the
+ * counterexample trace by the driver and handed to replay/allocator_sba_replay.c, which reaches the same bin state through
+ * the public api.  r_bin class index, r_np page objects of the model (index r_np-1 is the working page), r_page page size,
+ * r_na exhausted pages (model pages 0..r_na-1), r_work slot of the cursor in the working page (SIZE_MAX: none), r_nf length of
+ * the free list, r_fp / r_fs page index (4 bits each) and slot (8 bits each) of free-list entry i, r_ap / r_as page and slot
+ * of the block released by free_step.  They take no part in any obligation. */
+size_t r_bin, r_np, r_page, r_na, r_work, r_nf, r_ap, r_as;
+uint64_t r_fp, r_fs;
 static struct aws_allocator PARENT;
 static struct small_block_allocator S_static;
 static struct small_block_allocator *SB = &S_static;
@@ -217,12 +225,21 @@ static struct sba_bin *any_bin_state(void) {
     for (unsigned i = 0; i < SBA_NP - 1; i++) ad[i] = g_pt[i];
     bin->active_pages = (struct aws_array_list){.alloc = S.allocator, .current_size = LIST_CAP_A * sizeof(void *), .length = na, .item_size = sizeof(void *), .data = ad};
     /* working page: PG[SBA_NP-1] with the cursor on an arbitrary slot, or none */
-    bin->page_cursor = nondet_bool() ? PGB(SBA_NP - 1) + SBA_HDR + any_below(SBA_NCH(CLS)) * CLS : NULL;
+    bool has_work = nondet_bool();
+    size_t work_slot = any_below(SBA_NCH(CLS));
+    bin->page_cursor = has_work ? PGB(SBA_NP - 1) + SBA_HDR + work_slot * CLS : NULL;
     /* free list: arbitrary slots of arbitrary pages */
     size_t nf = any_below(SBA_NF + 1);
     void **fd = malloc(LIST_CAP_F * sizeof(void *));
     __CPROVER_assume(fd != NULL);
-    for (unsigned i = 0; i < SBA_NF; i++) fd[i] = PGB(any_below(SBA_NP)) + SBA_HDR + any_below(SBA_NCH(CLS)) * CLS;
+    r_fp = 0; r_fs = 0;
+    for (unsigned i = 0; i < SBA_NF; i++) {
+        size_t fp = any_below(SBA_NP), fs = any_below(SBA_NCH(CLS));
+        fd[i] = PGB(fp) + SBA_HDR + fs * CLS;
+        r_fp |= (uint64_t)fp << (4 * i);
+        r_fs |= (uint64_t)fs << (8 * i);
+    }
+    r_bin = SBA_BIN; r_np = SBA_NP; r_page = SBA_PAGE_C; r_na = na; r_work = has_work ? work_slot : SIZE_MAX; r_nf = nf;
     bin->free_chunks = (struct aws_array_list){.alloc = S.allocator, .current_size = LIST_CAP_F * sizeof(void *), .length = nf, .item_size = sizeof(void *), .data = fd};
     __CPROVER_assume(sba_bin_inv(&S, bin, CLS));
     g_page_allocs = g_page_frees = 0;
@@ -286,7 +303,9 @@ void h_alloc_step(void) {
 /* ---- s_sba_free_to_bin ---- */
 void h_free_step(void) {
     struct sba_bin *bin = any_bin_state();
-    uint8_t *a = any_slot_addr();
+    size_t a_page = any_below(SBA_NP), a_slot = any_below(SBA_NCH(CLS));
+    uint8_t *a = PGB(a_page) + SBA_HDR + a_slot * CLS; /* an arbitrary slot address, as any_slot_addr() */
+    r_ap = a_page; r_as = a_slot;
     __CPROVER_assume(sba_live(bin, a)); /* the block being released is live */
     bool have_w = nondet_bool();
     uint8_t *w = any_slot_addr();
